@@ -3,6 +3,7 @@ package main
 // Symbolic values and memory.
 
 import (
+	"sync"
 	"sync/atomic"
 	"os"
 	"runtime/debug"
@@ -33,6 +34,7 @@ type Object struct {
 	id   int
 	name string
 	typ  types.Type
+	spec bool // a global declared by harness/specification code
 }
 
 type PathElem struct {
@@ -159,9 +161,17 @@ func pcSplit(a, b *pcNode) (common *pcNode, da, db *Term) {
 }
 
 type State struct {
-	mem   Mem
-	pc    *pcNode
-	ghost map[string]Value // ghost variables / logs keyed by name
+	mem    Mem
+	pc     *pcNode
+	ghost  map[string]Value // ghost variables / logs keyed by name
+	shared *sharedWatch     // when set: writes to objects that exist since package initialisation are recorded
+}
+
+// sharedWatch records stores to package-level state (objects created before or during init) made after init.
+type sharedWatch struct {
+	mu   sync.Mutex
+	max  int
+	hits map[string]bool
 }
 
 func (s *State) fork() *State {
@@ -173,7 +183,7 @@ func (s *State) fork() *State {
 	for k, v := range s.ghost {
 		g[k] = v
 	}
-	return &State{mem: m, pc: s.pc, ghost: g}
+	return &State{mem: m, pc: s.pc, ghost: g, shared: s.shared}
 }
 
 type execError struct{ msg string }
@@ -616,6 +626,11 @@ func (s *State) store(p Pointer, v Value) {
 	root, ok := s.mem[p.Obj]
 	if !ok {
 		fail("store to unknown object %s", p.Obj.name)
+	}
+	if s.shared != nil && p.Obj.id <= s.shared.max && !p.Obj.spec {
+		s.shared.mu.Lock()
+		s.shared.hits[p.Obj.name] = true
+		s.shared.mu.Unlock()
 	}
 	s.mem[p.Obj] = setPath(root, p.Path, v, nil)
 }
